@@ -18,6 +18,45 @@
 (* validates traces of the real code (LEN = 2, MAC = 16, ROT = 1000).       *)
 (*                                                                          *)
 (* One action per call of the Machine API; the adversary owns the wire.     *)
+(*                                                                          *)
+(* Three further behaviour classes (follow-up):                             *)
+(*  (a) DELIVERED DATA IS A VALUE, NOT A VIEW.  `held[d]` is what the       *)
+(*      caller of ReadMessage / ReadBody still holds of the messages it was *)
+(*      handed (Release = it drops them).  Nothing the Machine does later - *)
+(*      further reads, writes, flushes, in either direction - changes a     *)
+(*      held message: no action but the delivery itself and Release touches *)
+(*      `held`.  Recheck is the caller looking at what it holds again; the  *)
+(*      trace spec compares the hashes recomputed THEN with the hashes of   *)
+(*      the messages as they were SENT (ConformHeld).                       *)
+(*  (b) FULL-DUPLEX USE OF ONE MACHINE.  The read half and the write half   *)
+(*      of a Machine run in different goroutines (peer.Brontide:            *)
+(*      readHandler / writeHandler).  Each half is a sequential process     *)
+(*      with a program counter (`wip`, `rip`) and one action per section of *)
+(*      its calls: WStage / WEncHdr / WEncBody (WriteMessage), FlushHdr /   *)
+(*      FlushBody (Flush, one section per Write on the wire), RHdrTake /    *)
+(*      RHdrOpen / RHdrLen (ReadHeader: io.ReadFull, Decrypt, length),      *)
+(*      RBodyTake / RBodyOpen (ReadBody).  The halves share NOTHING: the    *)
+(*      write half owns snd, pend, wip, fl (and the staged length), the     *)
+(*      read half owns rcv, rip, held, cbuf; they meet only on the wire.    *)
+(*      This is the action property HalvesDisjoint, and it is why every     *)
+(*      interleaving of the sections gives each call the result of the      *)
+(*      atomic call.  The atomic actions Write / Flush / Read and the       *)
+(*      per-call actions RHeader / RBody (ReadNextHeader / ReadNextBody)    *)
+(*      are built from the same operators.  TLC takes every section         *)
+(*      boundary (TransportMC, Fine = TRUE).  On the real code a half can   *)
+(*      be parked where the code itself calls out: WriteMessage at          *)
+(*      headerBufferPool.Get() - after the length is staged, before the two *)
+(*      Encrypt calls: WStage, then WEnc = WEncHdr ; WEncBody in one step - *)
+(*      Flush at its second Write on the wire (FlushHdr, FlushBody), and    *)
+(*      between ReadHeader and ReadBody (RHeader, RBody).                   *)
+(*  (c) brontide.Conn AS A BYTE STREAM (conn.go): CWrite = WriteMessage +   *)
+(*      Flush per chunk of at most MaxSize bytes, CRead(want) = load the    *)
+(*      next message into readBuf when it is empty, hand out min(want,      *)
+(*      left) bytes.  `cbuf` is readBuf, `cst[d]` counts the bytes handed   *)
+(*      out: the concatenation of the pieces is the sent stream             *)
+(*      (ConnAccounting here; in the trace spec the count of every Read     *)
+(*      and, message by message, the concatenated bytes: ConformConn,       *)
+(*      ConformConnPayload).                                                *)
 (***************************************************************************)
 EXTENDS Integers, Sequences, FiniteSets, TLC
 
@@ -28,7 +67,8 @@ CONSTANTS ROT,          \* keyRotationInterval (1000)
           ActLen,       \* length of acts one and two (50)
           Act3Len,      \* length of act three (66)
           ReaderStops,  \* caller contract: a reader never calls ReadMessage again after an error
-          TrackUsed     \* keep the explicit set of (key, ep, n) used for encryption (MC only)
+          TrackUsed,    \* keep the explicit set of (key, ep, n) used for encryption (MC only)
+          ConnEmptyEOFQuirk  \* TRUE: follow the code where Conn.Read answers a delivered EMPTY message with io.EOF
 
 HDR == LEN + MAC        \* encHeaderSize
 
@@ -130,15 +170,38 @@ VARIABLES
   reuse,     \* an encryption used a (key, ep, n) again / went backwards
   tampered,  \* the adversary touched a handshake act
   nadv,      \* adversary actions so far
-  last       \* observation of the last call
+  last,      \* observation of the last call
+  \* (a) what the caller holds
+  held,      \* direction -> sequence of [id, h]: delivered messages its reader's caller still holds
+  \* (b) the two halves of a Machine as sequential processes
+  wip,       \* machine -> the call in progress in its WRITE half: [pc, size, v, h, k]
+  rip,       \* machine -> the call in progress in its READ half: [pc, ps, hp, plen, intact, prefail]
+  \* (c) brontide.Conn
+  cbuf,      \* machine -> Conn.readBuf: [left, sz, h] bytes left of the message (size sz, hash h) loaded last
+  cst        \* direction -> [got, loaded, pure]: bytes handed out by Conn.Read, payload bytes of the messages it
+             \* loaded, and whether Conn.Read alone consumed this direction so far
 
 hvars == <<hs, target, tr, act, tampered>>
-tvars == <<snd, rcv, pend, pipe, closed, lastmsg, nsent, dl, rfail, fl, used, hw, reuse>>
+xvars == <<held, wip, rip, cbuf, cst>>
+tvars == <<snd, rcv, pend, pipe, closed, lastmsg, nsent, dl, rfail, fl, used, hw, reuse, xvars>>
 vars  == <<hvars, tvars, nadv, last>>
+\* who owns what (b): the write half of m, the read half of m
+WHalf(m) == <<snd[m], pend[m], wip[m], fl[m], hw[m]>>
+RHalf(m) == <<rcv[m], rip[m], cbuf[m]>>
 
 NoAct  == [k |-> 0, good |-> TRUE, sess |-> "s", alt |-> "none", cuts |-> <<>>]
 ActSize(k) == IF k = 3 THEN Act3Len ELSE ActLen
 NoPend == [hc |-> NoCt, bc |-> NoCt, hl |-> 0, bl |-> 0]
+\* write half: "idle" | "staged" (WriteMessage passed its checks and staged the length in pktLenBuffer)
+\*           | "hdr" (header sealed) | "flush" (Flush wrote the header; k bytes of the writer's budget left)
+NoWip == [pc |-> "idle", size |-> 0, v |-> -1, h |-> "", k |-> 0]
+\* read half: "idle" | "hin" (ReadHeader: the header bytes `ps` are off the wire) | "hopen" (header opened)
+\*          | "hdr" (ReadHeader returned plen; ReadBody not called yet) | "bin" (ReadBody: the body bytes `ps` are off the wire)
+NoRip == [pc |-> "idle", ps |-> <<>>, hp |-> <<>>, plen |-> 0, intact |-> FALSE, prefail |-> FALSE]
+NoBuf == [left |-> 0, sz |-> 0, h |-> ""]
+NoCst == [got |-> 0, loaded |-> 0, pure |-> TRUE]
+WIdle(m) == wip[m].pc = "idle"
+RIdle(m) == rip[m].pc = "idle"
 Obs(op, who, err) == [op |-> op, who |-> who, err |-> err, nn |-> 0, did |-> 0, dh |-> "", dsz |-> 0,
                       intact |-> FALSE, prefail |-> FALSE]
 
@@ -154,6 +217,9 @@ Init ==
   /\ used = {} /\ hw = [m \in Machines |-> NoCipher] /\ reuse = FALSE
   /\ nadv = 0
   /\ last = Obs("init", "", "")
+  /\ held = [d \in Dirs |-> <<>>]
+  /\ wip = [m \in Machines |-> NoWip] /\ rip = [m \in Machines |-> NoRip]
+  /\ cbuf = [m \in Machines |-> NoBuf] /\ cst = [d \in Dirs |-> NoCst]
 
 -----------------------------------------------------------------------------
 (* The handshake.  An act carries: its number, whether its AEAD tag was     *)
@@ -165,7 +231,7 @@ Init ==
 Split(m) == /\ snd' = [snd EXCEPT ![m] = NewCipher(IF m = "A" THEN "k1" ELSE "k2")]
             /\ rcv' = [rcv EXCEPT ![m] = NewCipher(IF m = "A" THEN "k2" ELSE "k1")]
 
-HsOnly == UNCHANGED <<pend, pipe, closed, lastmsg, nsent, dl, rfail, fl, used, hw, reuse, nadv>>
+HsOnly == UNCHANGED <<pend, pipe, closed, lastmsg, nsent, dl, rfail, fl, used, hw, reuse, nadv, xvars>>
 
 ErrOf(a) == IF a.alt = "ver" THEN "ver" ELSE IF a.alt = "badpt" THEN "point" ELSE "mac"
 
@@ -253,26 +319,31 @@ OldActOne ==
   /\ UNCHANGED <<hs, target, tr, tvars>>
 
 -----------------------------------------------------------------------------
-(* WriteMessage / Flush / ReadMessage                                       *)
+(* WriteMessage / Flush / ReadMessage: as whole calls, and section by       *)
+(* section for the two halves of a Machine running concurrently             *)
 
 MsgOnly == UNCHANGED <<hvars, nadv>>
 
+HdrCt(d, c, id, size) == Ct(d, c, id, "h", HDR, size, "")
+BodyCt(d, c, id, size, v, h) == Ct(d, c, id, "b", size + MAC, IF size = LEN THEN v ELSE -1, h)
+\* the two checks at the head of WriteMessage
+WriteRefused(m, size) == IF size > MaxSize THEN "toolong"
+                         ELSE IF pend[m].hl > 0 \/ pend[m].bl > 0 THEN "notflushed" ELSE ""
+
+\* ---------------------------------------------------------------- write half
 \* WriteMessage(p), len(p) = size; v = p as an integer when size = LEN; h = hash(p)
 Write(m, size, v, h) ==
-  /\ hs[m] = "done"
+  /\ hs[m] = "done" /\ WIdle(m)
   /\ LET d == DirOf(m) IN
-     IF size > MaxSize THEN
-        /\ last' = Obs("Write", m, "toolong")
-        /\ UNCHANGED tvars
-     ELSE IF pend[m].hl > 0 \/ pend[m].bl > 0 THEN
-        /\ last' = Obs("Write", m, "notflushed")
+     IF WriteRefused(m, size) # "" THEN
+        /\ last' = Obs("Write", m, WriteRefused(m, size))
         /\ UNCHANGED tvars
      ELSE
         LET c1 == snd[m]
             c2 == Adv(c1)
             id == nsent[d] + 1
-            hc == Ct(d, c1, id, "h", HDR, size, "")
-            bc == Ct(d, c2, id, "b", size + MAC, IF size = LEN THEN v ELSE -1, h)
+            hc == HdrCt(d, c1, id, size)
+            bc == BodyCt(d, c2, id, size, v, h)
         IN /\ snd' = [snd EXCEPT ![m] = Adv(c2)]
            /\ pend' = [pend EXCEPT ![m] = [hc |-> hc, bc |-> bc, hl |-> HDR, bl |-> size + MAC]]
            /\ nsent' = [nsent EXCEPT ![d] = id]
@@ -282,12 +353,76 @@ Write(m, size, v, h) ==
                               \/ (hw[m] # NoCipher /\ ~Less(hw[m], c1)) \/ ~Less(c1, c2))
            /\ hw' = [hw EXCEPT ![m] = c2]
            /\ last' = Obs("Write", m, "")
-           /\ UNCHANGED <<rcv, pipe, closed, lastmsg, dl, rfail>>
+           /\ UNCHANGED <<rcv, pipe, closed, lastmsg, dl, rfail, xvars>>
+  /\ MsgOnly
+
+\* WriteMessage, section 1: the checks, and PutUint16(pktLenBuffer, len(p)) - the length is staged
+WStage(m, size, v, h) ==
+  /\ hs[m] = "done" /\ WIdle(m)
+  /\ wip' = IF WriteRefused(m, size) # "" THEN wip
+            ELSE [wip EXCEPT ![m] = [pc |-> "staged", size |-> size, v |-> v, h |-> h, k |-> 0]]
+  /\ last' = Obs("WStage", m, WriteRefused(m, size))
+  /\ UNCHANGED <<snd, rcv, pend, pipe, closed, lastmsg, nsent, dl, rfail, fl, used, hw, reuse, held, rip, cbuf, cst>>
+  /\ MsgOnly
+\* section 2: the header is sealed - over the length THIS half staged - into nextHeaderSend
+WEncHdr(m) ==
+  /\ wip[m].pc = "staged"
+  /\ LET d  == DirOf(m)
+         c1 == snd[m]
+         id == nsent[d] + 1
+     IN /\ snd' = [snd EXCEPT ![m] = Adv(c1)]
+        /\ pend' = [pend EXCEPT ![m] = [hc |-> HdrCt(d, c1, id, wip[m].size), bc |-> NoCt, hl |-> HDR, bl |-> 0]]
+        /\ nsent' = [nsent EXCEPT ![d] = id]
+        /\ used' = IF TrackUsed THEN used \cup {Triple(c1)} ELSE used
+        /\ reuse' = (reuse \/ (TrackUsed /\ Triple(c1) \in used) \/ (hw[m] # NoCipher /\ ~Less(hw[m], c1)))
+        /\ hw' = [hw EXCEPT ![m] = c1]
+  /\ wip' = [wip EXCEPT ![m].pc = "hdr"]
+  /\ last' = Obs("WEncHdr", m, "")
+  /\ UNCHANGED <<rcv, pipe, closed, lastmsg, dl, rfail, fl, held, rip, cbuf, cst>>
+  /\ MsgOnly
+\* section 3: the body is sealed into nextBodySend; WriteMessage returns
+WEncBody(m) ==
+  /\ wip[m].pc = "hdr"
+  /\ LET d  == DirOf(m)
+         c2 == snd[m]
+         w  == wip[m]
+     IN /\ snd' = [snd EXCEPT ![m] = Adv(c2)]
+        /\ pend' = [pend EXCEPT ![m].bc = BodyCt(d, c2, nsent[d], w.size, w.v, w.h), ![m].bl = w.size + MAC]
+        /\ fl' = [fl EXCEPT ![m] = [size |-> w.size, got |-> 0]]
+        /\ used' = IF TrackUsed THEN used \cup {Triple(c2)} ELSE used
+        /\ reuse' = (reuse \/ (TrackUsed /\ Triple(c2) \in used) \/ ~Less(hw[m], c2))
+        /\ hw' = [hw EXCEPT ![m] = c2]
+  /\ wip' = [wip EXCEPT ![m] = NoWip]
+  /\ last' = Obs("WEncBody", m, "")
+  /\ UNCHANGED <<rcv, pipe, closed, lastmsg, nsent, dl, rfail, held, rip, cbuf, cst>>
+  /\ MsgOnly
+
+\* sections 2 and 3 in one step (what the real WriteMessage does after it has fetched its pooled buffers:
+\* both Encrypt calls with no scheduling point of the harness between them)
+WEnc(m) ==
+  /\ wip[m].pc = "staged"
+  /\ LET d  == DirOf(m)
+         w  == wip[m]
+         c1 == snd[m]
+         c2 == Adv(c1)
+         id == nsent[d] + 1
+     IN /\ snd' = [snd EXCEPT ![m] = Adv(c2)]
+        /\ pend' = [pend EXCEPT ![m] = [hc |-> HdrCt(d, c1, id, w.size), bc |-> BodyCt(d, c2, id, w.size, w.v, w.h),
+                                        hl |-> HDR, bl |-> w.size + MAC]]
+        /\ nsent' = [nsent EXCEPT ![d] = id]
+        /\ fl' = [fl EXCEPT ![m] = [size |-> w.size, got |-> 0]]
+        /\ used' = IF TrackUsed THEN used \cup {Triple(c1), Triple(c2)} ELSE used
+        /\ reuse' = (reuse \/ (TrackUsed /\ (Triple(c1) \in used \/ Triple(c2) \in used))
+                           \/ (hw[m] # NoCipher /\ ~Less(hw[m], c1)) \/ ~Less(c1, c2))
+        /\ hw' = [hw EXCEPT ![m] = c2]
+  /\ wip' = [wip EXCEPT ![m] = NoWip]
+  /\ last' = Obs("WEnc", m, "")
+  /\ UNCHANGED <<rcv, pipe, closed, lastmsg, dl, rfail, held, rip, cbuf, cst>>
   /\ MsgOnly
 
 \* Flush(w) where w accepts k more bytes and then times out
 Flush(m, k) ==
-  /\ hs[m] = "done" /\ k >= 0
+  /\ hs[m] = "done" /\ WIdle(m) /\ k >= 0
   /\ LET d  == DirOf(m)
          hl == pend[m].hl
          bl == pend[m].bl
@@ -304,66 +439,283 @@ Flush(m, k) ==
         /\ pend' = [pend EXCEPT ![m] = IF done THEN NoPend ELSE [@ EXCEPT !.hl = hl - wh, !.bl = bl - wb]]
         /\ fl' = [fl EXCEPT ![m].got = @ + nn]
         /\ last' = [Obs("Flush", m, IF k < hl + bl THEN "timeout" ELSE "") EXCEPT !.nn = nn]
-  /\ UNCHANGED <<snd, rcv, closed, lastmsg, nsent, dl, rfail, used, hw, reuse>>
+  /\ UNCHANGED <<snd, rcv, closed, lastmsg, nsent, dl, rfail, used, hw, reuse, xvars>>
   /\ MsgOnly
 
-\* ReadMessage = ReadHeader ; ReadBody on the bytes P with receive cipher rc.
-\* io.ReadFull on too few bytes consumes them and fails without touching the cipher.
-ReadRes(P, rc) ==
-  LET fail(e, P2, c) == [err |-> e, pipe |-> P2, rc |-> c, did |-> 0, dir |-> "", dh |-> "", dsz |-> 0, msg |-> <<>>] IN
-  IF Total(P) < HDR THEN fail("short", <<>>, rc)
-  ELSE LET hp  == TakeN(P, HDR)
-           P1  == DropN(P, HDR)
-           rc1 == Adv(rc)
-       IN IF ~Whole(hp, rc) THEN fail("mac", P1, rc1)
-          ELSE LET plen == hp[1].v + MAC IN
-               IF Total(P1) < plen THEN fail("short", <<>>, rc1)
-               ELSE LET bp  == TakeN(P1, plen)
-                        P2  == DropN(P1, plen)
-                        rc2 == Adv(rc1)
-                    IN IF ~Whole(bp, rc1) THEN fail("mac", P2, rc2)
-                       ELSE [err |-> "", pipe |-> P2, rc |-> rc2,
-                             \* AEAD does not bind a ciphertext to its role: what is delivered is a sent
-                             \* message only if a header was opened as header and its body as body
-                             did |-> IF hp[1].part = "h" /\ bp[1].part = "b" /\ hp[1].id = bp[1].id
-                                        /\ hp[1].dir = bp[1].dir
-                                     THEN bp[1].id ELSE -1,
-                             dir |-> bp[1].dir, dh |-> bp[1].h, dsz |-> bp[1].len - MAC, msg |-> hp \o bp]
+\* Flush with header bytes pending, section 1: w.Write(nextHeaderSend), the slice is advanced; on an
+\* error Flush returns, else it goes on to the body with what is left of the writer's budget
+FlushHdr(m, k) ==
+  /\ hs[m] = "done" /\ WIdle(m) /\ k >= 0 /\ pend[m].hl > 0
+  /\ LET d  == DirOf(m)
+         hl == pend[m].hl
+         wh == Min(k, hl)
+     IN /\ pipe' = IF closed[d] THEN pipe
+                   ELSE [pipe EXCEPT ![d] = AppendPiece(@, Piece(pend[m].hc, HDR - hl, HDR - hl + wh))]
+        /\ pend' = [pend EXCEPT ![m].hl = hl - wh]
+        /\ wip' = IF wh < hl THEN wip ELSE [wip EXCEPT ![m] = [NoWip EXCEPT !.pc = "flush", !.k = k - wh]]
+        /\ last' = Obs("FlushHdr", m, IF wh < hl THEN "timeout" ELSE "")
+  /\ UNCHANGED <<snd, rcv, closed, lastmsg, nsent, dl, rfail, fl, used, hw, reuse, held, rip, cbuf, cst>>
+  /\ MsgOnly
+\* section 2: w.Write(nextBodySend), the slice is advanced, the buffers are released when all is out
+FlushBody(m) ==
+  /\ wip[m].pc = "flush"
+  /\ LET d  == DirOf(m)
+         bl == pend[m].bl
+         wb == Min(wip[m].k, bl)
+         bc == pend[m].bc
+         nn == Max(0, bl - MAC) - Max(0, bl - wb - MAC)
+     IN /\ pipe' = IF closed[d] THEN pipe
+                   ELSE [pipe EXCEPT ![d] = AppendPiece(@, Piece(bc, bc.len - bl, bc.len - bl + wb))]
+        /\ pend' = [pend EXCEPT ![m] = IF wb = bl THEN NoPend ELSE [@ EXCEPT !.bl = bl - wb]]
+        /\ fl' = [fl EXCEPT ![m].got = @ + nn]
+        /\ last' = [Obs("FlushBody", m, IF wb < bl THEN "timeout" ELSE "") EXCEPT !.nn = nn]
+  /\ wip' = [wip EXCEPT ![m] = NoWip]
+  /\ UNCHANGED <<snd, rcv, closed, lastmsg, nsent, dl, rfail, used, hw, reuse, held, rip, cbuf, cst>>
+  /\ MsgOnly
 
+\* ----------------------------------------------------------------- read half
 \* the head of the stream is exactly the untouched ciphertext of the next undelivered message
 IsCt(s, d, id, part) == s.dir = d /\ s.id = id /\ s.part = part /\ s.from = 0 /\ s.to = s.len /\ ~s.alt
 HeadIntact(d) == /\ Len(pipe[d]) >= 2
                  /\ IsCt(pipe[d][1], d, dl[d].n + 1, "h")
                  /\ IsCt(pipe[d][2], d, dl[d].n + 1, "b")
+HdrIntact(d)  == pipe[d] # <<>> /\ IsCt(pipe[d][1], d, dl[d].n + 1, "h")
+BodyIntact(d) == pipe[d] # <<>> /\ IsCt(pipe[d][1], d, dl[d].n + 1, "b")
 
+RFail(e, P2, c) == [err |-> e, pipe |-> P2, rc |-> c, did |-> 0, dir |-> "", dh |-> "", dsz |-> 0, msg |-> <<>>,
+                    hp |-> <<>>, plen |-> 0]
+\* AEAD does not bind a ciphertext to its role: what is delivered is a sent message only if a
+\* header was opened as header and its body as body
+Opened(hp, bp, P2, c) ==
+  [err |-> "", pipe |-> P2, rc |-> c,
+   did |-> IF hp[1].part = "h" /\ bp[1].part = "b" /\ hp[1].id = bp[1].id /\ hp[1].dir = bp[1].dir
+           THEN bp[1].id ELSE -1,
+   dir |-> bp[1].dir, dh |-> bp[1].h, dsz |-> bp[1].len - MAC, msg |-> hp \o bp, hp |-> hp, plen |-> bp[1].len]
+\* ReadHeader on the bytes P with receive cipher rc.
+\* io.ReadFull on too few bytes consumes them and fails without touching the cipher.
+HdrRes(P, rc) ==
+  IF Total(P) < HDR THEN RFail("short", <<>>, rc)
+  ELSE LET hp == TakeN(P, HDR) IN
+       IF ~Whole(hp, rc) THEN RFail("mac", DropN(P, HDR), Adv(rc))
+       ELSE [RFail("", DropN(P, HDR), Adv(rc)) EXCEPT !.hp = hp, !.plen = hp[1].v + MAC]
+\* ReadBody(buf), len(buf) = plen, after a header that opened as hp
+BodyRes(P, rc, hp, plen) ==
+  IF Total(P) < plen THEN RFail("short", <<>>, rc)
+  ELSE LET bp == TakeN(P, plen) IN
+       IF ~Whole(bp, rc) THEN RFail("mac", DropN(P, plen), Adv(rc))
+       ELSE Opened(hp, bp, DropN(P, plen), Adv(rc))
+\* ReadMessage = ReadHeader ; ReadBody(make([]byte, pktLen))
+ReadRes(P, rc) == LET h == HdrRes(P, rc) IN
+                  IF h.err # "" THEN h ELSE BodyRes(h.pipe, h.rc, h.hp, h.plen)
+
+\* NOT forbidden by the Machine: reading on after an error (the peer layer never does)
+CanRead(d) == ~rfail[d] \/ ~ReaderStops
+
+\* what a read call that ended with `res` does to the stream and to the receive cipher ...
+Consume(d, res) ==
+  /\ pipe' = [pipe EXCEPT ![d] = res.pipe]
+  /\ rcv' = [rcv EXCEPT ![Reader(d)] = res.rc]
+  /\ rfail' = [rfail EXCEPT ![d] = @ \/ res.err # ""]
+  /\ closed' = [closed EXCEPT ![d] = @ \/ res.err = "short"]   \* io.ReadFull hit EOF
+\* ... and to the record of what was delivered; `keep`: the plaintext slice goes to a caller who holds it
+Deliver(d, res, keep) ==
+  /\ lastmsg' = [lastmsg EXCEPT ![d] = IF res.err = "" THEN res.msg ELSE @]
+  /\ dl' = IF res.err # "" THEN dl
+           ELSE IF dl[d].bad = <<>> /\ res.did = dl[d].n + 1 /\ res.dir = d
+                THEN [dl EXCEPT ![d].n = @ + 1]
+                ELSE [dl EXCEPT ![d].bad = Append(@, res.did)]
+  /\ held' = IF res.err = "" /\ keep THEN [held EXCEPT ![d] = Append(@, [id |-> res.did, h |-> res.dh])] ELSE held
+ReadObs(op, r, res, intact, prefail) ==
+  [Obs(op, r, res.err) EXCEPT !.did = res.did, !.dh = res.dh, !.dsz = res.dsz, !.nn = res.plen,
+                              !.intact = intact, !.prefail = prefail]
+
+\* ReadMessage as one call
 ReadCommon(d) ==
   LET r   == Reader(d)
       res == ReadRes(pipe[d], rcv[r])
-  IN /\ hs[r] = "done"
-     /\ pipe' = [pipe EXCEPT ![d] = res.pipe]
-     /\ rcv' = [rcv EXCEPT ![r] = res.rc]
-     /\ rfail' = [rfail EXCEPT ![d] = @ \/ res.err # ""]
-     /\ closed' = [closed EXCEPT ![d] = @ \/ res.err = "short"]   \* io.ReadFull hit EOF
-     /\ lastmsg' = [lastmsg EXCEPT ![d] = IF res.err = "" THEN res.msg ELSE @]
-     /\ dl' = IF res.err # "" THEN dl
-              ELSE IF dl[d].bad = <<>> /\ res.did = dl[d].n + 1 /\ res.dir = d
-                   THEN [dl EXCEPT ![d].n = @ + 1]
-                   ELSE [dl EXCEPT ![d].bad = Append(@, res.did)]
-     /\ last' = [Obs("Read", r, res.err) EXCEPT !.did = res.did, !.dh = res.dh, !.dsz = res.dsz,
-                                               !.intact = HeadIntact(d), !.prefail = rfail[d]]
-     /\ UNCHANGED <<snd, pend, nsent, fl, used, hw, reuse>>
+  IN /\ hs[r] = "done" /\ RIdle(r)
+     /\ Consume(d, res) /\ Deliver(d, res, TRUE)
+     /\ cst' = IF res.err = "" THEN [cst EXCEPT ![d].pure = FALSE] ELSE cst
+     /\ last' = [ReadObs("Read", r, res, HeadIntact(d), rfail[d]) EXCEPT !.nn = 0]
+     /\ UNCHANGED <<snd, pend, nsent, fl, used, hw, reuse, wip, rip, cbuf>>
      /\ MsgOnly
 
 Read(d) == ~rfail[d] /\ ReadCommon(d)
-\* NOT forbidden by the Machine: reading on after an error (the peer layer never does)
 ReadAfterFailure(d) == ~ReaderStops /\ rfail[d] /\ ReadCommon(d)
+
+\* ReadHeader as one call (Conn.ReadNextHeader): returns plen = length + MAC
+RHeader(d) ==
+  LET r   == Reader(d)
+      res == HdrRes(pipe[d], rcv[r])
+  IN /\ hs[r] = "done" /\ RIdle(r) /\ CanRead(d)
+     /\ Consume(d, res)
+     /\ rip' = IF res.err # "" THEN rip
+               ELSE [rip EXCEPT ![r] = [NoRip EXCEPT !.pc = "hdr", !.hp = res.hp, !.plen = res.plen,
+                                                    !.intact = HdrIntact(d), !.prefail = rfail[d]]]
+     /\ last' = ReadObs("RHeader", r, res, HdrIntact(d), rfail[d])
+     /\ UNCHANGED <<snd, pend, lastmsg, nsent, dl, fl, used, hw, reuse, held, wip, cbuf, cst>>
+     /\ MsgOnly
+\* ReadBody(buf) as one call (Conn.ReadNextBody), len(buf) = the plen ReadHeader returned (caller contract)
+RBody(d) ==
+  LET r   == Reader(d)
+      q   == rip[r]
+      res == BodyRes(pipe[d], rcv[r], q.hp, q.plen)
+  IN /\ q.pc = "hdr"
+     /\ Consume(d, res) /\ Deliver(d, res, TRUE)
+     /\ cst' = IF res.err = "" THEN [cst EXCEPT ![d].pure = FALSE] ELSE cst
+     /\ rip' = [rip EXCEPT ![r] = NoRip]
+     /\ last' = [ReadObs("RBody", r, res, q.intact /\ BodyIntact(d), q.prefail) EXCEPT !.nn = 0]
+     /\ UNCHANGED <<snd, pend, nsent, fl, used, hw, reuse, wip, cbuf>>
+     /\ MsgOnly
+
+\* ReadHeader, section 1: io.ReadFull(r, nextCipherHeader[:])
+RHdrTake(d) ==
+  LET r == Reader(d)
+      P == pipe[d]
+      short == Total(P) < HDR
+  IN /\ hs[r] = "done" /\ RIdle(r) /\ CanRead(d)
+     /\ pipe' = [pipe EXCEPT ![d] = IF short THEN <<>> ELSE DropN(P, HDR)]
+     /\ closed' = [closed EXCEPT ![d] = @ \/ short]
+     /\ rfail' = [rfail EXCEPT ![d] = @ \/ short]
+     /\ rip' = IF short THEN rip
+               ELSE [rip EXCEPT ![r] = [NoRip EXCEPT !.pc = "hin", !.ps = TakeN(P, HDR),
+                                                    !.intact = HdrIntact(d), !.prefail = rfail[d]]]
+     /\ last' = [Obs("RHdrTake", r, IF short THEN "short" ELSE "") EXCEPT !.prefail = rfail[d]]
+     /\ UNCHANGED <<snd, rcv, pend, lastmsg, nsent, dl, fl, used, hw, reuse, held, wip, cbuf, cst>>
+     /\ MsgOnly
+\* section 2: recvCipher.Decrypt(nextCipherHeader) - the nonce advances whether the tag verifies or not
+RHdrOpen(d) ==
+  LET r  == Reader(d)
+      q  == rip[r]
+      ok == Whole(q.ps, rcv[r])
+  IN /\ q.pc = "hin"
+     /\ rcv' = [rcv EXCEPT ![r] = Adv(@)]
+     /\ rfail' = [rfail EXCEPT ![d] = @ \/ ~ok]
+     /\ rip' = [rip EXCEPT ![r] = IF ok THEN [q EXCEPT !.pc = "hopen", !.hp = q.ps, !.ps = <<>>,
+                                                       !.plen = q.ps[1].v + MAC]
+                                  ELSE NoRip]
+     /\ last' = [Obs("RHdrOpen", r, IF ok THEN "" ELSE "mac") EXCEPT !.intact = q.intact, !.prefail = q.prefail]
+     /\ UNCHANGED <<snd, pend, pipe, closed, lastmsg, nsent, dl, fl, used, hw, reuse, held, wip, cbuf, cst>>
+     /\ MsgOnly
+\* section 3: the length is taken from the opened header; ReadHeader returns it (+ MAC)
+RHdrLen(d) ==
+  LET r == Reader(d)
+      q == rip[r]
+  IN /\ q.pc = "hopen"
+     /\ rip' = [rip EXCEPT ![r].pc = "hdr"]
+     /\ last' = [Obs("RHdrLen", r, "") EXCEPT !.nn = q.plen, !.prefail = q.prefail]
+     /\ UNCHANGED <<snd, rcv, pend, pipe, closed, lastmsg, nsent, dl, rfail, fl, used, hw, reuse, held, wip, cbuf, cst>>
+     /\ MsgOnly
+\* ReadBody, section 1: io.ReadFull(r, buf)
+RBodyTake(d) ==
+  LET r == Reader(d)
+      q == rip[r]
+      P == pipe[d]
+      short == Total(P) < q.plen
+  IN /\ q.pc = "hdr"
+     /\ pipe' = [pipe EXCEPT ![d] = IF short THEN <<>> ELSE DropN(P, q.plen)]
+     /\ closed' = [closed EXCEPT ![d] = @ \/ short]
+     /\ rfail' = [rfail EXCEPT ![d] = @ \/ short]
+     /\ rip' = [rip EXCEPT ![r] = IF short THEN NoRip
+                                  ELSE [q EXCEPT !.pc = "bin", !.ps = TakeN(P, q.plen),
+                                                 !.intact = q.intact /\ BodyIntact(d)]]
+     /\ last' = [Obs("RBodyTake", r, IF short THEN "short" ELSE "") EXCEPT !.prefail = q.prefail]
+     /\ UNCHANGED <<snd, rcv, pend, lastmsg, nsent, dl, fl, used, hw, reuse, held, wip, cbuf, cst>>
+     /\ MsgOnly
+\* section 2: recvCipher.Decrypt(buf) in place; ReadBody returns the plaintext slice
+RBodyOpen(d) ==
+  LET r   == Reader(d)
+      q   == rip[r]
+      res == IF Whole(q.ps, rcv[r]) THEN Opened(q.hp, q.ps, pipe[d], Adv(rcv[r]))
+             ELSE RFail("mac", pipe[d], Adv(rcv[r]))
+  IN /\ q.pc = "bin"
+     /\ Consume(d, res) /\ Deliver(d, res, TRUE)
+     /\ cst' = IF res.err = "" THEN [cst EXCEPT ![d].pure = FALSE] ELSE cst
+     /\ rip' = [rip EXCEPT ![r] = NoRip]
+     /\ last' = [ReadObs("RBodyOpen", r, res, q.intact, q.prefail) EXCEPT !.nn = 0]
+     /\ UNCHANGED <<snd, pend, nsent, fl, used, hw, reuse, wip, cbuf>>
+     /\ MsgOnly
+
+\* ------------------------------------------------------ what the caller holds
+\* the caller drops the messages it was handed
+Release(d) ==
+  /\ hs[Reader(d)] = "done" /\ held[d] # <<>>
+  /\ held' = [held EXCEPT ![d] = <<>>]
+  /\ last' = Obs("Release", Reader(d), "")
+  /\ UNCHANGED <<hvars, snd, rcv, pend, pipe, closed, lastmsg, nsent, dl, rfail, fl, used, hw, reuse, wip, rip, cbuf, cst, nadv>>
+\* the caller looks again at the messages it holds: nothing changes (the observation is judged by the trace spec)
+Recheck(d) ==
+  /\ hs[Reader(d)] = "done"
+  /\ last' = [Obs("Recheck", Reader(d), "") EXCEPT !.nn = Len(held[d])]
+  /\ UNCHANGED <<hvars, tvars, nadv>>
+
+\* ------------------------------------------------------------- brontide.Conn
+\* Conn.Write(b), len(b) = size, on a net.Conn that accepts everything: WriteMessage + Flush per chunk of
+\* at most MaxSize bytes.  The chunks appended to the stream P, starting in cipher state c with message id
+\* (hseq: hashes of the chunks, v: the value of a LEN-byte chunk - traces only)
+HashAt(hseq, i) == IF i <= Len(hseq) THEN hseq[i] ELSE ""
+RECURSIVE Chunks(_, _, _, _, _, _, _, _)
+Chunks(d, c, P, id, rest, hseq, i, v) ==
+  LET s  == Min(rest, MaxSize)
+      c2 == Adv(c)
+      P2 == AppendPiece(AppendPiece(P, Piece(HdrCt(d, c, id, s), 0, HDR)),
+                        Piece(BodyCt(d, c2, id, s, v, HashAt(hseq, i)), 0, s + MAC))
+  IN IF rest - s = 0 THEN [c |-> Adv(c2), lastc |-> c2, pipe |-> P2, id |-> id, lasts |-> s]
+     ELSE Chunks(d, Adv(c2), P2, id + 1, rest - s, hseq, i + 1, v)
+
+CWrite(m, size, hseq, v) ==
+  LET d == DirOf(m) IN
+  /\ hs[m] = "done" /\ WIdle(m)
+  /\ IF pend[m] # NoPend THEN
+        /\ last' = Obs("CWrite", m, "notflushed")
+        /\ UNCHANGED tvars
+     ELSE
+        LET r == Chunks(d, snd[m], pipe[d], nsent[d] + 1, size, hseq, 1, v) IN
+        /\ snd' = [snd EXCEPT ![m] = r.c]
+        /\ pipe' = IF closed[d] THEN pipe ELSE [pipe EXCEPT ![d] = r.pipe]
+        /\ nsent' = [nsent EXCEPT ![d] = r.id]
+        /\ fl' = [fl EXCEPT ![m] = [size |-> r.lasts, got |-> r.lasts]]
+        /\ reuse' = (reuse \/ (hw[m] # NoCipher /\ ~Less(hw[m], snd[m])))
+        /\ hw' = [hw EXCEPT ![m] = r.lastc]
+        /\ last' = [Obs("CWrite", m, "") EXCEPT !.nn = size]
+        /\ UNCHANGED <<rcv, pend, closed, lastmsg, dl, rfail, used, xvars>>
+  /\ MsgOnly
+
+\* Conn.Read(b), len(b) = want: bytes left in readBuf are handed out; when it is empty the next message is
+\* loaded first (ReadMessage, copied into readBuf - the caller never sees that slice)
+CRead(d, want) ==
+  LET r == Reader(d) IN
+  /\ hs[r] = "done" /\ RIdle(r) /\ want >= 0
+  /\ IF cbuf[r].left > 0 THEN
+        LET n == Min(want, cbuf[r].left) IN
+        /\ cbuf' = [cbuf EXCEPT ![r].left = @ - n]
+        /\ cst' = [cst EXCEPT ![d].got = @ + n]
+        /\ last' = [Obs("CRead", r, "") EXCEPT !.nn = n]
+        /\ UNCHANGED <<pipe, rcv, rfail, closed, lastmsg, dl, held>>
+     ELSE
+        LET res == ReadRes(pipe[d], rcv[r])
+            \* bytes.Buffer.Read on an empty buffer: (0, io.EOF) - the delivered empty message looks like the end of the stream
+            eof == ConnEmptyEOFQuirk /\ res.err = "" /\ res.dsz = 0 /\ want > 0
+            n   == IF res.err = "" THEN Min(want, res.dsz) ELSE 0
+        IN /\ CanRead(d)
+           /\ Consume(d, res) /\ Deliver(d, res, FALSE)
+           /\ cbuf' = IF res.err = "" THEN [cbuf EXCEPT ![r] = [left |-> res.dsz - n, sz |-> res.dsz, h |-> res.dh]] ELSE cbuf
+           /\ cst' = IF res.err = "" THEN [cst EXCEPT ![d].loaded = @ + res.dsz, ![d].got = @ + n] ELSE cst
+           /\ last' = [ReadObs("CLoad", r, res, HeadIntact(d), rfail[d]) EXCEPT !.nn = n, !.err = IF eof THEN "short" ELSE res.err]
+  /\ UNCHANGED <<snd, pend, nsent, fl, used, hw, reuse, wip, rip>>
+  /\ MsgOnly
+\* the empty-message case of Conn.Read (announced by the trace spec)
+CReadEmptyEOF(d, want) ==
+  LET r == Reader(d)
+      res == ReadRes(pipe[d], rcv[r]) IN
+  ConnEmptyEOFQuirk /\ cbuf[r].left = 0 /\ res.err = "" /\ res.dsz = 0 /\ want > 0
 
 -----------------------------------------------------------------------------
 (* The adversary on the byte stream.  All actions are byte-range operations; *)
 (* the model checker and the generator apply them at piece boundaries.       *)
 AdvOnly(d, P2) == /\ pipe' = [pipe EXCEPT ![d] = Norm(P2)]
                   /\ nadv' = nadv + 1
-                  /\ UNCHANGED <<hvars, snd, rcv, pend, lastmsg, nsent, dl, rfail, fl, used, hw, reuse>>
+                  /\ UNCHANGED <<hvars, snd, rcv, pend, lastmsg, nsent, dl, rfail, fl, used, hw, reuse, xvars>>
 
 \* change the byte at offset off
 Corrupt(d, off) ==
@@ -479,9 +831,15 @@ DeliveredGenuine == \A d \in Dirs : \A i \in 1..Len(dl[d].bad) : dl[d].bad[i] > 
 \* A read (by a reader that has seen no error) yields data exactly when the stream head is
 \* byte for byte the next message as its writer encrypted it: any modification, truncation,
 \* reordering, replay or reflection that reaches the reader makes the read fail ...
-ReadOkIffIntact == (last.op = "Read" /\ ~last.prefail) => ((last.err = "") <=> last.intact)
+\* (section by section: the header opens iff it is the next header, the body iff it is its body)
+ReadOkIffIntact == (last.op \in {"Read", "RHeader", "RBody", "RHdrOpen", "RBodyOpen"} /\ ~last.prefail) =>
+                      ((last.err = "") <=> last.intact)
+\* (Conn.Read when it loads a message: the same, but for the announced empty-message case)
+CLoadOkIffIntact == (last.op = "CLoad" /\ ~last.prefail) =>
+                      /\ (last.err = "" => last.intact)
+                      /\ (last.intact => (last.err = "" \/ (ConnEmptyEOFQuirk /\ last.err = "short" /\ last.dsz = 0)))
 \* ... and what it yields then is that message
-ReadYieldsNext == (last.op = "Read" /\ ~last.prefail /\ last.err = "") =>
+ReadYieldsNext == (last.op \in {"Read", "RBody", "RBodyOpen", "CLoad"} /\ ~last.prefail /\ last.did # 0) =>
                      \E d \in Dirs : Reader(d) = last.who /\ last.did = dl[d].n /\ dl[d].bad = <<>>
 
 \* without an adversary the bytes in flight are the ciphertexts of the undelivered messages in
@@ -494,9 +852,11 @@ InOrder(P, d, id, part) ==
        /\ s.dir = d /\ s.id = id /\ s.part = part /\ s.from = 0 /\ ~s.alt
        /\ (Tail(P) # <<>> => s.to = s.len)
        /\ InOrder(Tail(P), d, IF part = "h" THEN id ELSE id + 1, IF part = "h" THEN "b" ELSE "h")
-EndsRight(d) ==
-  LET P == pipe[d]
-      p == pend[Writer(d)]
+\* the stream from the first byte of the message its reader is in the middle of (the bytes a read call in
+\* progress has taken off the wire, then the wire)
+VPipe(d) == LET q == rip[Reader(d)] IN Norm(q.hp \o q.ps \o pipe[d])
+EndsRight(d, P) ==
+  LET p == pend[Writer(d)]
       z == P[Len(P)]
       wholeUpTo(k) == IF P = <<>> THEN dl[d].n = k
                       ELSE z.part = "b" /\ z.to = z.len /\ z.id = k
@@ -508,7 +868,7 @@ EndsRight(d) ==
              ELSE z.part = "b" /\ z.to = z.len - p.bl
 PristinePipe == \A d \in Dirs :
   (nadv = 0 /\ ~rfail[d] /\ hs[Writer(d)] = "done") =>
-     InOrder(pipe[d], d, dl[d].n + 1, "h") /\ EndsRight(d)
+     InOrder(VPipe(d), d, dl[d].n + 1, "h") /\ EndsRight(d, VPipe(d))
 \* Flush reports exactly the plaintext bytes that left the buffer
 FlushCount == \A m \in Machines : fl[m].got = fl[m].size - Max(0, pend[m].bl - MAC)
 
@@ -519,4 +879,36 @@ DistinctSendKeys == BothDone => snd["A"].key # snd["B"].key
 
 TypeOK == /\ \A m \in Machines : snd[m].n < ROT /\ rcv[m].n < ROT /\ snd[m].n >= 0 /\ rcv[m].n >= 0
           /\ \A m \in Machines : pend[m].hl >= 0 /\ pend[m].bl >= 0 /\ pend[m].hl <= HDR
+
+-----------------------------------------------------------------------------
+(* (a) delivered data is a value: what the caller holds are messages that were delivered to it, each once, *)
+(* in the order it was handed them - whatever the Machine has done since (messages that Conn.Read loaded  *)
+(* into readBuf were delivered too, but no caller holds them)                                             *)
+HeldAreDelivered == \A d \in Dirs :
+  LET H == held[d] IN
+  (dl[d].bad = <<>>) => /\ \A i \in 1..Len(H) : H[i].id >= 1 /\ H[i].id <= dl[d].n
+                        /\ \A i, j \in 1..Len(H) : i < j => H[i].id < H[j].id
+(* (b) the halves of a Machine share nothing: a step of the read half of m leaves everything its write half *)
+(* owns unchanged, and the other way round (action property)                                                *)
+WOps == {"Write", "WStage", "WEncHdr", "WEncBody", "WEnc", "Flush", "FlushHdr", "FlushBody", "CWrite"}
+ROps == {"Read", "RHeader", "RBody", "RHdrTake", "RHdrOpen", "RHdrLen", "RBodyTake", "RBodyOpen", "CRead", "CLoad",
+         "Release", "Recheck"}
+HalvesDisjointStep == \A m \in Machines :
+  /\ (last'.who = m /\ last'.op \in ROps) => UNCHANGED WHalf(m)
+  /\ (last'.who = m /\ last'.op \in WOps) => UNCHANGED RHalf(m)
+HalvesDisjoint == [][HalvesDisjointStep]_vars
+\* the program counters of the halves and what they stand for
+HalfPcOK == \A m \in Machines :
+  /\ wip[m].pc \in {"idle", "staged", "hdr", "flush"}
+  /\ (wip[m].pc = "staged") => pend[m] = NoPend
+  /\ (wip[m].pc = "hdr") => (pend[m].hl = HDR /\ pend[m].bl = 0)
+  /\ (wip[m].pc = "flush") => (pend[m].hl = 0 /\ pend[m].bl = pend[m].bc.len /\ wip[m].k >= 0)
+  /\ (wip[m].pc = "idle") => (pend[m] = NoPend \/ pend[m].bl >= 1)
+  /\ rip[m].pc \in {"idle", "hin", "hopen", "hdr", "bin"}
+  /\ (rip[m].pc = "hin") => Total(rip[m].ps) = HDR
+  /\ (rip[m].pc \in {"hopen", "hdr"}) => (Total(rip[m].hp) = HDR /\ rip[m].ps = <<>> /\ rip[m].plen >= MAC)
+  /\ (rip[m].pc = "bin") => Total(rip[m].ps) = rip[m].plen
+(* (c) Conn.Read: the bytes handed out and the bytes still in readBuf are the payload of the messages it loaded *)
+ConnAccounting == \A d \in Dirs : /\ cst[d].got + cbuf[Reader(d)].left = cst[d].loaded
+                                  /\ cbuf[Reader(d)].left <= cbuf[Reader(d)].sz
 =============================================================================
